@@ -106,7 +106,7 @@ ClauseNames ==
     "C14_ref", "C14_epics_flat", "C14_bad_refused",
     "C15_progress", "C15_waits", "C15_claim",
     "C16_one_value", "C16_truth",
-    "C20_only_grow", "C20_confined", "C20_live_only",
+    "C20_only_grow", "C20_confined", "C20_live_only", "C20_faithful",
     "C01_serial", "C01_no_double", "C01_outcomes", "C01_winner_holds",
     "C02_serial", "C02_wholelines", "C02_nowait", "C02_busy_fast", "C07_final", "C13_reader",
     "C03_acked_survive",
@@ -173,6 +173,7 @@ Eval(n, o) ==
     [] n = "C20_only_grow" -> P!C20_only_grow(o)
     [] n = "C20_confined" -> P!C20_confined(o)
     [] n = "C20_live_only" -> P!C20_live_only(o)
+    [] n = "C20_faithful" -> P!C20_faithful(o)
     [] n = "C01_serial" -> Cn!C01_serial(o)
     [] n = "C01_no_double" -> Cn!C01_no_double(o)
     [] n = "C01_outcomes" -> Cn!C01_outcomes(o)
